@@ -9,6 +9,13 @@ Monitors
            when negotiated and absent when not, legal SAR sequences, SDU length field right
   setup    after create_l2cap_channel settles: both ends OPEN in one mode or both closed,
            never pending at T_v, for every pair of client/server specs incl. mismatches
+  rawcfg   a hand-driven (vlib.rig.RawPeer) classic peer that accepts whatever bumble proposes but
+           orders the configuration exchange in every legal way - its request first, its response
+           first, each held back until the other went through, at once / after loop turns / after
+           virtual seconds, "connection pending" before success, "unacceptable parameters" with a
+           proposal first, a response or a request in two parts (continuation flag) - with bumble
+           as initiator and as acceptor, Basic and ERTM: both ends open (then SDUs both ways and a
+           close by either side) or both closed, never a pending connect()
 """
 from __future__ import annotations
 
@@ -24,7 +31,9 @@ ID = 'C08'
 LEVEL = 'exploration'
 RULE = ('seeded cases over (client spec, server spec, SDU size sequences both ways, ACL geometry, delays); '
         'non-trivial when the modes/FCS of the two specs differ, or an SDU was segmented, or TxSeq wrapped past '
-        '63, or the window filled; distinct = distinct spec pair + SDU size sequence')
+        '63, or the window filled; distinct = distinct spec pair + SDU size sequence. rawcfg cases: seeded (role, '
+        'ordering script, pace, mode, CIDs/MTUs, pending/renegotiation/continuation feature); each is non-trivial (the '
+        'peer never behaves like bumble); distinct = distinct parameter tuple')
 ASSUMPTIONS = [
     'no frame loss on the virtual link, so retransmission paths are not exercised',
     'SDU sizes are kept <= min(client MTU, server MTU): larger SDUs are an API misuse the statement does not cover',
@@ -33,9 +42,15 @@ ASSUMPTIONS = [
 ]
 MIN_EVENTS = {
     'quick': {'sdu_checks': 900, 'wire_iframes': 20000, 'setup_checks': 800, 'fcs_checked': 15000, 'seq_wraps': 100,
-              'multi_sdu_checks': 1500, 'multi_channels_with_different_cids': 100, 'multi_closes': 80},
+              'multi_sdu_checks': 1500, 'multi_channels_with_different_cids': 100, 'multi_closes': 80,
+              'rawcfg_setups': 400, 'rawcfg_both_open': 300, 'rawcfg_order_rsp-first': 60, 'rawcfg_order_req-first-late-rsp': 60,
+              'rawcfg_bumble_acceptor': 150, 'rawcfg_bumble_initiator': 150, 'rawcfg_conn_pending': 40,
+              'rawcfg_rsp_continuations': 15, 'rawcfg_sdu_checks': 500},
     'thorough': {'sdu_checks': 4000, 'wire_iframes': 100000, 'setup_checks': 3000, 'fcs_checked': 10000, 'seq_wraps': 100,
-                 'multi_sdu_checks': 15000, 'multi_channels_with_different_cids': 1000, 'multi_closes': 800},
+                 'multi_sdu_checks': 15000, 'multi_channels_with_different_cids': 1000, 'multi_closes': 800,
+                 'rawcfg_setups': 3500, 'rawcfg_both_open': 2500, 'rawcfg_order_rsp-first': 500,
+                 'rawcfg_order_req-first-late-rsp': 500, 'rawcfg_bumble_acceptor': 1200, 'rawcfg_bumble_initiator': 1200,
+                 'rawcfg_conn_pending': 300, 'rawcfg_rsp_continuations': 120, 'rawcfg_sdu_checks': 4000},
 }
 CASE_TIMEOUT = 300
 
@@ -46,7 +61,8 @@ def plan(tier, seed):
     n = 900 if tier == 'quick' else 6000
     m = 150 if tier == 'quick' else 1500
     return ([{'kind': 'xfer', 'seed': seed * 1000003 + i, 'tier': tier} for i in range(n)] +
-            [{'kind': 'multi', 'seed': seed * 1000003 + 50000 + i, 'tier': tier} for i in range(m)])
+            [{'kind': 'multi', 'seed': seed * 1000003 + 50000 + i, 'tier': tier} for i in range(m)] +
+            [{'kind': 'rawcfg', 'seed': seed * 1000003 + 80000 + i, 'tier': tier} for i in range(480 if tier == 'quick' else 4000)])
 
 
 def crc16(data: bytes) -> int:
@@ -505,9 +521,445 @@ async def multi(case, r: R):
     r.sample = {'kind': 'multi', 'spec': spec, 'history': hist}
 
 
+# -----------------------------------------------------------------------------
+# hand-driven classic peer: every legal ordering of the configuration exchange
+# -----------------------------------------------------------------------------
+RAW_ORDERS = ['req-first', 'rsp-first', 'req-first-late-rsp', 'rsp-first-late-req']
+
+
+class RawClassic:
+    """One classic channel end spoken by hand on top of vlib.rig.RawPeer. It accepts whatever bumble proposes (so
+    every script is a legal, compatible peer) and only varies WHEN it says things."""
+
+    def __init__(self, raw, handle, rng, p):
+        self.raw, self.handle, self.rng, self.p = raw, handle, rng, p
+        self.loop = asyncio.get_running_loop()
+        self.my_cid = p['raw_cid']
+        self.peer_cid = 0
+        self.ident = rng.choice([0x10, 0xF0, 0xFE])
+        self.conn_done = False
+        self.req_sent = False
+        self.req_acked = False          # bumble accepted my Configure Request
+        self.peer_req = None            # (ident, options) of bumble's not yet answered request
+        self.peer_req_answered = False  # I accepted bumble's Configure Request
+        self.peer_options = {}
+        self.reneg_left = 1 if p['renegotiate'] else 0
+        self.cont_left = 1 if p['rsp_continuation'] else 0
+        self.closed = False
+        self.rejected = []
+        self.trace = []
+        self.pending_actions = 0
+        self.rx_sdus = []
+        self.rx_next = 0                # ERTM: next TxSeq expected from bumble
+        self.tx_next = 0                # ERTM: my next TxSeq
+        self.acked_by_bumble = 0
+        self.wire_errors = []
+        raw.handlers.append(self.on_pdu)
+
+    # -- plumbing
+    def nid(self):
+        self.ident = self.ident % 255 + 1
+        return self.ident
+
+    def sig(self, code, ident, data, what):
+        self.trace.append('raw>' + what)
+        self.raw.send(self.handle, rl.BR_SIG, rl.sig(code, ident, data))
+
+    def act(self, fn, how=None):
+        """Run fn now, after a few loop turns, or after some virtual time (seeded)."""
+        how = how or self.rng.choice(self.p['paces'])
+        if how == 'now':
+            fn()
+            return
+        self.pending_actions += 1
+
+        def run():
+            self.pending_actions -= 1
+            fn()
+        if how == 'turns':
+            n = self.rng.randint(1, 6)
+
+            def hop(k):
+                if k == 0:
+                    run()
+                else:
+                    self.loop.call_soon(hop, k - 1)
+            hop(n)
+        else:
+            self.loop.call_later(self.rng.choice([0.05, 0.7, 3.0]), run)
+
+    @property
+    def is_open(self):
+        return self.conn_done and self.req_acked and self.peer_req_answered and not self.closed
+
+    # -- my side of the exchange
+    def my_options(self):
+        o = bytes([0x01, 2]) + struct.pack('<H', self.p['raw_mtu'])
+        if self.p['mode'] == 'ertm':
+            o += bytes([0x04, 9]) + struct.pack('<BBBHHH', 3, self.p['raw_window'], 3, 2000, 12000, self.p['raw_mps'])
+        elif self.p['basic_rfc_option']:
+            o += bytes([0x04, 9]) + struct.pack('<BBBHHH', 0, 0, 0, 0, 0, 0)
+        return o
+
+    def send_req(self):
+        if self.req_sent or self.closed:
+            return
+        self.req_sent = True
+        self.req_ident = self.nid()
+        if self.p['req_split'] and not self.split_refused:
+            self.req_part = 1
+            hint = bytes([0x80 | 0x7E, 40]) + bytes(range(40))
+            self.sig(rl.CODE_CONF_REQ, self.req_ident, struct.pack('<HH', self.peer_cid, 1) + self.my_options()[:4] + hint,
+                     'ConfReq(C=1,hint)')
+            return
+        self.req_part = 0
+        self.sig(rl.CODE_CONF_REQ, self.req_ident, struct.pack('<HH', self.peer_cid, 0) + self.my_options(), 'ConfReq')
+
+    split_refused = False
+    req_part = 0
+
+    def connect(self, psm):
+        self.conn_ident = self.nid()
+        self.sig(rl.CODE_CONN_REQ, self.conn_ident, struct.pack('<HH', psm, self.my_cid), 'ConnReq')
+
+    def after_connected(self):
+        self.conn_done = True
+        if self.p['order'] in ('req-first', 'req-first-late-rsp'):
+            self.act(self.send_req)
+
+    def answer(self):
+        if self.peer_req is None or self.closed:
+            return
+        ident, options = self.peer_req
+        self.peer_req = None
+        if self.reneg_left and 0x01 in options:
+            # legal negotiation: "unacceptable parameters", proposing another MTU; bumble must ask again
+            self.reneg_left -= 1
+            self.sig(rl.CODE_CONF_RSP, ident, struct.pack('<HHH', self.peer_cid, 0, 1) + bytes([0x01, 2]) +
+                     struct.pack('<H', self.p['raw_proposed_mtu']), 'ConfRsp(unacceptable)')
+            return
+        if self.cont_left:
+            # the response comes in two parts: C flag set, the requester must ask for the rest with an empty request
+            self.cont_left -= 1
+            self.sig(rl.CODE_CONF_RSP, ident, struct.pack('<HHH', self.peer_cid, 1, 0) + bytes([0x01, 2]) + options[0x01],
+                     'ConfRsp(C=1)')
+            return
+        self.sig(rl.CODE_CONF_RSP, ident, struct.pack('<HHH', self.peer_cid, 0, 0), 'ConfRsp')
+        self.peer_req_answered = True
+        if not self.req_sent:
+            if self.p['order'] == 'rsp-first-late-req':
+                self.act(self.send_req, 'vtime')
+            else:
+                self.act(self.send_req)
+
+    # -- what bumble says
+    def on_pdu(self, handle, cid, payload):
+        if handle != self.handle:
+            return
+        if cid == self.my_cid:
+            self.on_data(payload)
+            return
+        if cid != rl.BR_SIG:
+            return
+        for code, ident, data in rl.parse_signalling(payload):
+            if code == rl.CODE_CONN_REQ:
+                psm, scid = struct.unpack_from('<HH', data, 0)
+                self.trace.append('bumble>ConnReq')
+                self.peer_cid = scid
+
+                def success():
+                    self.sig(rl.CODE_CONN_RSP, ident, struct.pack('<HHHH', self.my_cid, scid, 0, 0), 'ConnRsp')
+                    self.after_connected()
+                if self.p['conn_pending']:
+                    st = self.p['conn_pending']
+                    self.sig(rl.CODE_CONN_RSP, ident, struct.pack('<HHHH', self.my_cid if st['dcid'] else 0, scid, 1, st['status']),
+                             'ConnRsp(pending)')
+                    self.act(success, st['pace'])
+                else:
+                    self.act(success, 'now')
+            elif code == rl.CODE_CONN_RSP:
+                dcid, scid, result, status = struct.unpack_from('<HHHH', data, 0)
+                self.trace.append(f'bumble>ConnRsp({result})')
+                if result == 0 and scid == self.my_cid:
+                    self.peer_cid = dcid
+                    self.after_connected()
+                elif result != 1:
+                    self.closed = True
+            elif code == rl.CODE_CONF_REQ:
+                dcid, flags = struct.unpack_from('<HH', data, 0)
+                options = parse_conf_options(data[4:])
+                self.trace.append('bumble>ConfReq' + ('(empty)' if not options else ''))
+                if dcid != self.my_cid:
+                    self.wire_errors.append(f'Configure Request for cid {dcid:#x}, mine is {self.my_cid:#x}')
+                    continue
+                if flags & 1:
+                    self.wire_errors.append('bumble set the continuation flag on a request that fits one packet')
+                # options left out of a later request keep the value they had (Vol 3 Part A 4.4)
+                self.peer_options.update(options)
+                self.peer_req = (ident, dict(self.peer_options))
+                if self.p['order'] == 'req-first-late-rsp' and not self.req_acked and self.req_sent:
+                    self.trace.append('raw:hold-rsp')
+                    continue
+                self.act(self.answer)
+            elif code == rl.CODE_CONF_RSP:
+                scid, flags, result = struct.unpack_from('<HHH', data, 0)
+                self.trace.append(f'bumble>ConfRsp({result})')
+                if self.req_sent and ident == self.req_ident and result == 0 and self.req_part == 1:
+                    # first part accepted: the rest, continuation flag cleared
+                    self.req_part = 2
+                    self.req_ident = self.nid()
+                    self.sig(rl.CODE_CONF_REQ, self.req_ident, struct.pack('<HH', self.peer_cid, 0) + self.my_options()[4:],
+                             'ConfReq(C=0,rest)')
+                elif self.req_sent and ident == self.req_ident and result == 3 and self.req_part:
+                    # the hint was refused as an unknown option: ask again without it, in one piece
+                    self.split_refused = True
+                    self.req_sent = False
+                    self.act(self.send_req)
+                elif self.req_sent and ident == self.req_ident and result == 0:
+                    self.req_acked = True
+                    if self.peer_req is not None:
+                        self.act(self.answer)
+                elif result != 0:
+                    self.wire_errors.append(f'bumble refused a plain Configure Request: result {result}')
+            elif code == rl.CODE_DISC_REQ:
+                dcid, scid = struct.unpack_from('<HH', data, 0)
+                self.trace.append('bumble>DiscReq')
+                self.sig(rl.CODE_DISC_RSP, ident, struct.pack('<HH', dcid, scid), 'DiscRsp')
+                self.closed = True
+            elif code == rl.CODE_DISC_RSP:
+                self.trace.append('bumble>DiscRsp')
+                self.closed = True
+            elif code == rl.CODE_REJECT:
+                self.trace.append('bumble>Reject')
+                self.rejected.append(data.hex())
+            elif code == rl.CODE_INFO_REQ:
+                it = struct.unpack_from('<H', data, 0)[0]
+                self.sig(rl.CODE_INFO_RSP, ident, struct.pack('<HH', it, 1), 'InfoRsp(not supported)')
+
+    # -- data
+    def on_data(self, payload):
+        if self.p['mode'] != 'ertm':
+            self.rx_sdus.append(bytes(payload))
+            return
+        if len(payload) < 2:
+            self.wire_errors.append('ERTM frame shorter than its control field')
+            return
+        ctrl = struct.unpack_from('<H', payload, 0)[0]
+        req = (ctrl >> 8) & 0x3F
+        self.acked_by_bumble = req
+        if ctrl & 1:
+            if ctrl & 0x10:      # poll: answer with the final bit
+                self.raw.send(self.handle, self.peer_cid, struct.pack('<H', 0x0001 | 0x80 | (self.rx_next << 8)))
+            return
+        txseq, sar = (ctrl >> 1) & 0x3F, (ctrl >> 14) & 3
+        if txseq != self.rx_next:
+            self.wire_errors.append(f'I-frame TxSeq {txseq}, expected {self.rx_next}')
+            return
+        self.rx_next = (self.rx_next + 1) % 64
+        if sar != 0:
+            self.wire_errors.append(f'segmented I-frame (SAR {sar}) for an SDU below my MPS')
+        self.rx_sdus.append(bytes(payload[2:]))
+        self.raw.send(self.handle, self.peer_cid, struct.pack('<H', 0x0001 | (self.rx_next << 8)))    # RR
+
+    def send_sdu(self, sdu):
+        if self.p['mode'] != 'ertm':
+            self.raw.send(self.handle, self.peer_cid, sdu)
+        else:
+            ctrl = (self.tx_next << 1) | (self.rx_next << 8)
+            self.tx_next = (self.tx_next + 1) % 64
+            self.raw.send(self.handle, self.peer_cid, struct.pack('<H', ctrl) + sdu)
+
+
+def gen_rawcfg(rng):
+    mode = rng.choice(['basic', 'basic', 'ertm'])
+    p = dict(
+        role=rng.choice(['initiator', 'acceptor']), order=rng.choice(RAW_ORDERS), mode=mode,
+        raw_cid=rng.choice([0x40, 0x41, 0x55, 0x1234, 0xFFFF]), raw_mtu=rng.choice([48, 672, 1024, 65535]),
+        raw_window=rng.choice([1, 4, 63]), raw_mps=rng.choice([48, 100, 1010]),
+        basic_rfc_option=rng.random() < 0.3,
+        paces=rng.choice([['now'], ['now'], ['turns'], ['vtime'], ['now', 'turns', 'vtime']]),
+        renegotiate=rng.random() < 0.2, raw_proposed_mtu=rng.choice([48, 300, 672]),
+        rsp_continuation=False, req_split=False,
+        conn_pending=None, delay=rng.choice([0, 0, 1, 3]),
+        bumble_mtu=rng.choice([48, 256, 2000, 65535]), bumble_mps=rng.choice([48, 100, 1010]), bumble_window=rng.choice([1, 8, 63]),
+        close_by=rng.choice(['bumble', 'raw', 'raw']),
+    )
+    x = rng.random()
+    if not p['renegotiate'] and x < 0.12:
+        # the raw peer answers bumble's request in two parts (continuation flag in the RESPONSE): the requester
+        # has to fetch the rest with an empty request (Vol 3 Part A 4.5)
+        p['rsp_continuation'] = True
+    elif not p['renegotiate'] and x < 0.24:
+        # the raw peer's own request does not fit the minimum signalling MTU of 48 bytes (it carries a vendor HINT
+        # option, which a receiver skips or, like bumble, refuses) and so comes in two parts; a refusal of the
+        # hint is answered by a plain request without it
+        p['req_split'] = True
+    if p['role'] == 'initiator' and rng.random() < 0.4:
+        # the raw acceptor first answers "connection pending" (authorisation, authentication ...), legal at any pace
+        p['conn_pending'] = dict(status=rng.choice([0, 1, 2]), dcid=rng.random() < 0.5, pace=rng.choice(['turns', 'vtime', 'vtime']))
+    return p
+
+
+async def rawcfg(case, r: R):
+    from bumble import l2cap
+    from vlib import rig as vrig
+    rng = random.Random(case['seed'])
+    vrig.seed_entropy(case['seed'])
+    p = gen_rawcfg(rng)
+    rg = vrig.Rig(2, seed=case['seed'], max_delay=p['delay'], classic=True)
+    rg.devices[0].l2cap_channel_manager.extended_features.update(
+        {l2cap.L2CAP_Information_Request.ExtendedFeatures.ENHANCED_RETRANSMISSION_MODE})
+    await rg.power_on()
+    ca, cb = await rg.connect_classic(0, 1)
+    await rg.quiesce()
+    raw = vrig.RawPeer(rg, 1)
+    raw.take()
+    ep = RawClassic(raw, cb.handle, rng, p)
+    bspec = dict(mode=p['mode'], mtu=p['bumble_mtu'], mps=p['bumble_mps'], tx_window_size=p['bumble_window'], fcs_enabled=False)
+    variant = ('rsp-continuation' if p['rsp_continuation'] else 'req-split' if p['req_split'] else
+               'renegotiate' if p['renegotiate'] else p['order'] + ('/conn-pending' if p['conn_pending'] else ''))
+    tag = f'/raw-peer/bumble-{p["role"]}/{variant}'
+    OPEN = l2cap.ClassicChannel.State.OPEN
+    CLOSED = l2cap.ClassicChannel.State.CLOSED
+    mgr0 = rg.devices[0].l2cap_channel_manager
+    ch = None
+    outcome = 'open'
+    if p['role'] == 'initiator':
+        try:
+            ch = await vloop.vwait(ca.create_l2cap_channel(spec=mkspec(bspec, PSM)))
+        except vloop.Hang:
+            outcome = 'hang'
+        except Exception as e:
+            outcome = f'raised {type(e).__name__}: {e}'
+    else:
+        accepted = []
+        rg.devices[0].create_l2cap_server(spec=mkspec(bspec, PSM), handler=accepted.append)
+        ep.connect(PSM)
+    # settle: nothing in flight, no scripted action pending, and some virtual time for good measure
+    try:
+        for _ in range(400):
+            await rg.quiesce()
+            if not ep.pending_actions and rg.in_flight == 0:
+                if p['role'] == 'initiator' or (accepted and accepted[0].state in (OPEN, CLOSED)) or _ > 8:
+                    break
+            await asyncio.sleep(0.5)
+    except vloop.Hang:
+        r.bad(f'setup/livelock{tag}', f'signalling never quiesces; params={p} trace={ep.trace[-12:]}')
+        return
+    if p['role'] == 'acceptor':
+        ch = accepted[0] if accepted else None
+    r.ev('setup_checks')
+    r.ev('rawcfg_setups')
+    r.ev(f'rawcfg_order_{p["order"]}')
+    r.ev(f'rawcfg_bumble_{p["role"]}')
+    if p['conn_pending']:
+        r.ev('rawcfg_conn_pending')
+    if p['renegotiate']:
+        r.ev('rawcfg_renegotiations')
+    if p['rsp_continuation']:
+        r.ev('rawcfg_rsp_continuations')
+    if p['req_split']:
+        r.ev('rawcfg_req_splits')
+        r.ev('rawcfg_req_split_hint_refused' if ep.split_refused else 'rawcfg_req_split_accepted')
+    bstate = ch.state if ch is not None else None
+    table = {cid: c.state.name for cid, c in mgr0.channels.get(ca.handle, {}).items()}
+    detail = (f'bumble end {bstate.name if bstate is not None else None} (connect(): {outcome}), raw end '
+              f'{"open" if ep.is_open else "closed" if ep.closed else "still configuring"} (its request accepted: {ep.req_acked}, '
+              f'bumble\'s request answered: {ep.peer_req_answered}); table={table}; params={p}; trace={ep.trace}')
+    r.ev('oracle_evals')
+    both_open = bstate == OPEN and ep.is_open and outcome == 'open'
+    both_closed = (bstate in (None, CLOSED)) and (ep.closed or not ep.conn_done) and not table
+    if outcome == 'hang':
+        r.bad(f'setup/hang{tag}', 'create_l2cap_channel pending at T_v: ' + detail)
+        return
+    if not both_open and not both_closed:
+        r.bad(f'setup/disagree{tag}', 'neither both open nor both closed: ' + detail)
+        return
+    for w in ep.wire_errors:
+        r.bad(f'setup/wire{tag}', f'{w}; params={p} trace={ep.trace}')
+    if both_closed:
+        # the raw peer accepts everything bumble may propose: nothing justifies a failed set-up
+        r.bad(f'setup/refused-compatible{tag}', 'a peer that accepts everything could not be reached: ' + detail)
+        return
+    r.ev('rawcfg_both_open')
+    # what bumble asked for is what its spec says; what it answered is recorded in its channel
+    r.ev('oracle_evals', 2)
+    want_mtu = p['raw_proposed_mtu'] if p['renegotiate'] else p['bumble_mtu']
+    got_mtu = struct.unpack('<H', ep.peer_options.get(0x01, b'\xa0\x02'))[0]
+    if got_mtu != want_mtu:
+        r.bad(f'setup/config-request-wrong/mtu{tag}', f'bumble finally asked for MTU {got_mtu}, expected {want_mtu}; params={p}')
+    rfc = ep.peer_options.get(0x04)
+    asked_mode = rfc[0] if rfc else 0
+    if asked_mode != (3 if p['mode'] == 'ertm' else 0):
+        r.bad(f'setup/mode-disagree{tag}', f'bumble asked for mode {asked_mode} with spec {p["mode"]}; params={p}')
+    if ch.peer_mtu != p['raw_mtu']:
+        r.bad(f'setup/config-request-wrong/peer-mtu{tag}', f'bumble recorded peer MTU {ch.peer_mtu}, the raw peer asked for {p["raw_mtu"]}')
+
+    # ---- SDUs both ways
+    got = []
+    ch.sink = got.append
+    top = min(p['raw_mtu'], got_mtu, p['raw_mps'] if p['mode'] == 'ertm' else 65535, p['bumble_mps'] if p['mode'] == 'ertm' else 65535)
+    sizes = [1, min(top, 40), min(top, rng.choice([48, 400, 1000])), top if top <= 2000 else 700]
+    sent_b = [bytes([(7 * i + k) & 0xFF for i in range(n)]) for k, n in enumerate(sizes)]
+    sent_r = [bytes([(11 * i + k + 3) & 0xFF for i in range(n)]) for k, n in enumerate(sizes)]
+    for a, b in zip(sent_b, sent_r):
+        try:
+            ch.write(a)
+        except Exception as e:
+            r.bad(f'sdu/write-raised{tag}', f'write({len(a)}) raised {type(e).__name__}: {e}')
+            return
+        ep.send_sdu(b)
+        if rng.random() < 0.5:
+            await rg.quiesce(extra_turns=3)
+
+    async def done():
+        while len(got) < len(sent_r) or len(ep.rx_sdus) < len(sent_b):
+            await asyncio.sleep(0.05)
+    try:
+        await vloop.vwait(done(), 60)
+    except vloop.Hang:
+        pass
+    await rg.quiesce()
+    r.ev('sdu_checks', 2)
+    r.ev('rawcfg_sdu_checks', 2)
+    r.ev('oracle_evals', 2)
+    if [bytes(x) for x in got] != sent_r:
+        r.bad(f'sdu/raw-to-bumble/{"lost" if len(got) < len(sent_r) else "corrupt"}{tag}',
+              f'{len(got)} SDUs at the sink, {len(sent_r)} sent by the raw peer; sizes={sizes} params={p}')
+    if ep.rx_sdus != sent_b:
+        r.bad(f'sdu/bumble-to-raw/{"lost" if len(ep.rx_sdus) < len(sent_b) else "corrupt"}{tag}',
+              f'{len(ep.rx_sdus)} SDUs reached the raw peer, {len(sent_b)} written; sizes={sizes} params={p}')
+    for w in ep.wire_errors:
+        r.bad(f'sdu/wire{tag}', f'{w}; params={p}')
+    # ---- close: both ends closed, table empty
+    if p['close_by'] == 'bumble':
+        try:
+            await vloop.vwait(ch.disconnect())
+        except vloop.Hang:
+            r.bad(f'setup/close-hang{tag}', 'disconnect() pending at T_v although the raw peer answers')
+    else:
+        ep.sig(rl.CODE_DISC_REQ, ep.nid(), struct.pack('<HH', ep.peer_cid, ep.my_cid), 'DiscReq')
+    await rg.quiesce()
+    r.ev('oracle_evals')
+    table = {cid: c.state.name for cid, c in mgr0.channels.get(ca.handle, {}).items()}
+    if ch.state != CLOSED or not ep.closed or table:
+        r.bad(f'setup/close-disagree{tag}', f'after a close by {p["close_by"]}: bumble end {ch.state.name}, raw end '
+                                            f'{"closed" if ep.closed else "open"}, table={table}')
+    for where, e in rg.exceptions:
+        r.bad(f'sdu/exception-in-stack{tag}', f'{where}: {e}; params={p}')
+    r.sig('rawcfg', p['role'], p['order'], p['mode'], bool(p['conn_pending']), p['renegotiate'], p['rsp_continuation'],
+          p['req_split'], tuple(p['paces']), p['raw_cid'],
+          p['raw_mtu'], p['bumble_mtu'], p['delay'])
+    r.sched.add(rg.schedule_signature)
+    r.evals()
+    r.sample = {'kind': 'rawcfg', 'params': {k: v for k, v in p.items()}, 'trace': ep.trace[:24]}
+
+
 async def run_case(case, r: R):
     if case['kind'] == 'multi':
         await multi(case, r)
+    elif case['kind'] == 'rawcfg':
+        await rawcfg(case, r)
     else:
         await xfer(case, r)
 
@@ -515,7 +967,9 @@ async def run_case(case, r: R):
 LEVEL_TEXT = ('SDU-sequence equality plus an independent ERTM wire parser (TxSeq continuity, window bound from the '
               "peer's Configuration Request, MPS, FCS by own CRC-16, SAR legality) and an open/open-or-closed/closed "
               'set-up oracle over ~200 (quick) / ~4000 (thorough) generated spec pairs and SDU sequences on real '
-              'BR/EDR rigs. Sampling of specs and sequences; no loss, so retransmission is not exercised.')
+              'BR/EDR rigs, plus ~480 (quick) / ~4000 (thorough) set-ups against a hand-driven peer that orders the '
+              'configuration exchange in every legal way with bumble in either role. Sampling of specs and sequences; '
+              'no loss, so retransmission is not exercised.')
 LEVEL_NOTE = ('Trusted: the wire parser and CRC in checks/c08.py, vlib/ref_l2cap.py signalling parser, rig taps, '
               'independent ACL reassembler, virtual-time loop.')
 TECHNIQUE = 'runtime monitoring: offline ERTM wire-log checker + SDU sequence equality + set-up agreement oracle'
